@@ -396,6 +396,20 @@ where
     #[inline(never)]
     fn resume_incomplete_search(
         &mut self,
+        incomplete_pos: RecordPos,
+        make_room: bool,
+    ) -> Result<bool, Error> {
+        let res = self._resume_incomplete_search(incomplete_pos, make_room);
+        if res.is_err() {
+            // The coordinates of the current record are undefined after a failed
+            // refill / refused growth: the error is terminal (as format errors are)
+            self.state = State::Finished;
+        }
+        res
+    }
+
+    fn _resume_incomplete_search(
+        &mut self,
         mut incomplete_pos: RecordPos,
         make_room: bool,
     ) -> Result<bool, Error> {
@@ -708,8 +722,15 @@ where
             return Ok(());
         }
 
-        self.buf_reader.seek(io::SeekFrom::Start(to.byte))?;
-        fill_buf(&mut self.buf_reader)?;
+        let res = self
+            .buf_reader
+            .seek(io::SeekFrom::Start(to.byte))
+            .and_then(|_| fill_buf(&mut self.buf_reader));
+        if let Err(e) = res {
+            // the buffer does not correspond to the position any more
+            self.state = State::Finished;
+            return Err(e.into());
+        }
         self.buf_pos.reset(0);
         Ok(())
     }
